@@ -25,6 +25,7 @@ RULE = ("cases = (format, state set, prior configuration in {none, main, main+ba
         "event kind crash|fault, index k of the primitive file-system call (0..n, n = after the last call), "
         "loss of unsynced data all|half|none); enumerated completely. non-trivial = distinct case in which the "
         "event fires inside the save (k < n) - each is a different on-disk situation")
+RULE += ' MONITORS ONLY: harness/impl/linkfile.py - the persistence file is a symbolic link (other directory / other name / relative target); rename #1, rename #2, remove each failing or as crash point; a fresh gateway loads through the link (36 variants).'
 ASSUMPTIONS = [
     "POSIX semantics as in Spec/AbstractFs.v: rename atomic and replacing; file data durable only by fsync; "
     "open('w') truncation ordered with the journal; after a crash a PREFIX of the directory operations issued is in "
